@@ -19,7 +19,9 @@ ASSUMPTIONS = [
     "range/bool controllers, options, MIDI-map numbers and all common fields are symbolic simultaneously; enum-typed controllers are "
     "case-split one at a time (the writer/reader treat controllers independently: shown by the frame clause of Module.set_raw in C05/C10)",
     "trailing empty module slots and midi_out_name == '' are outside the domain (the format cannot represent them)",
-    "text: strings are enumerated from a catalogue of boundary shapes around the 32-byte limit (bounded part); the cut rule itself is a clause",
+    "text: the module-name cut rule is discharged with SYMBOLIC code points for every UTF-8 length-class pattern around the 32-byte limit "
+    "(module_name_cut_rule; patterns enumerated, code points symbolic); project / pattern / MIDI-out names and a catalogue of concrete boundary "
+    "names are additionally evaluated natively (names_roundtrip, bounded part)",
 ]
 EXPLANATION = (
     "Each obligation states `loaded.<field> == original.<field>` after symbolically executing the real writer and the real "
@@ -281,3 +283,79 @@ def names_roundtrip(H, _):
             H.check("SNAM_is_spec_encoding", snam == F.enc_name32(name), witness=name)
         except Exception as e:  # noqa
             H.check("written_file_loads", False, witness={"name": name, "error": f"{type(e).__name__}: {e}"})
+
+
+# ------------------------------------------------------------------------------- text, symbolic code points
+
+# sub-ranges within which the lead byte takes one decoding rule (E0 / E1-EC / ED / EE-EF, F0 / F1-F3 / F4)
+_CLASS_RANGES = {1: [(0x01, 0x7F)], 2: [(0x80, 0x7FF)],
+                 3: [(0x1000, 0xCFFF), (0x800, 0xFFF), (0xD000, 0xD7FF), (0xE000, 0xFFFF)],
+                 4: [(0x40000, 0xFFFFF), (0x10000, 0x3FFFF), (0x100000, 0x10FFFF)]}
+
+
+def _pattern_cases(tier):
+    """UTF-8 length-class patterns: filler class f repeated up to byte b, then one character of class s
+    (straddling or not), then an ASCII tail."""
+    pats = []
+    for f in (1, 2, 3, 4):
+        for s in (1, 2, 3, 4):
+            for before in ((29, 30, 31, 32) if tier == "quick" else range(26, 34)):
+                classes = []
+                used = 0
+                while used + f <= before:
+                    classes.append(f)
+                    used += f
+                classes += [1] * (before - used)
+                classes += [s, 1, 1]
+                pats.append(classes)
+    seen, out = set(), []
+    for p in pats:
+        key = tuple(p)
+        if key not in seen:
+            seen.add(key)
+            out.append(("".join(map(str, p)), p))
+    if tier == "quick":
+        out = out[::3]
+    return out
+
+
+@contract(
+    "module_name_cut_rule", ["C01", "C03"], cases=_pattern_cases,
+    targets=["rv.modules.module:Module.iff_chunks", "rv.readers.module:ModuleReader.process_SNAM", "rv.readers.module:ModuleReader.process_STYP"],
+)
+def module_name_cut_rule(H, classes):
+    """Module name = one symbolic code point per position, ranging over its whole UTF-8 length class
+    (for the characters around the cut every lead-byte sub-range of the class is case-split, fillers
+    range over the largest sub-range; NUL and surrogates excluded): the SNAM chunk is 32 bytes, equals the
+    spec encoding, the file loads, and the loaded name is exactly the longest prefix whose UTF-8 form
+    fits 32 bytes - for every such name at once."""
+    from rv.modules.amplifier import Amplifier
+    from rvproof import strings
+    from spec import format as F
+
+    cps = []
+    for i, cl in enumerate(classes):
+        lo, hi = H.choice(f"range{i}", _CLASS_RANGES[cl]) if len(_CLASS_RANGES[cl]) > 1 and i >= len(classes) - 4 else _CLASS_RANGES[cl][0]
+        cps.append(H.int(f"cp{i}", lo, hi))
+    name = strings.mkstr(cps)
+    # longest prefix that fits: decided by the classes alone
+    used, k = 0, 0
+    for cl in classes:
+        if used + cl > 32:
+            break
+        used += cl
+        k += 1
+    want = strings.mkstr(cps[:k])
+    m = Amplifier()
+    m.name = name
+    chunks = list(H.call(m.iff_chunks, in_project=True))
+    snam = [c[1] for c in chunks if c[0] == b"SNAM"][0]
+    H.check("SNAM_is_32_bytes", len(snam) == 32)
+    enc = want.encode("utf8") if not isinstance(want, str) else want.encode("utf8")
+    H.check("SNAM_is_prefix_then_zero_padding", H.eq(snam, rw.join([enc, b"\0" * (32 - used)])))
+    p = Project()
+    p.attach_module(m)
+    q = rw.read_back(H, rw.write_container(H, p))
+    H.check("written_file_loads", len(q.modules) == 2)
+    H.check("loaded_name_is_longest_fitting_prefix", H.eq(q.modules[1].name, want))
+    H.cover("reached")
